@@ -35,7 +35,7 @@ func tableFingerprint() string {
 }
 
 type concJob struct {
-	kind   int // 0 url.Parse, 1 url.ParseRef, 2 parser.Parse, 3 base.Parse(ref), 4 profile.Parse, 5 profile.ParseRef, 6 getters of the shared base, 7 constructors, 8 base.Parse(ref) then setters on the result, 9 base.Clone() then setters on the clone
+	kind   int // 0 url.Parse, 1 url.ParseRef, 2 parser.Parse, 3 base.Parse(ref), 4 profile.Parse, 5 profile.ParseRef, 6 getters of the shared base, 7 constructors, 8 base.Parse(ref) then setters on the result, 9 base.Clone() then setters on the clone, 10 parser.Parse then setters on the result
 	parser int
 	base   int
 	input  string
@@ -48,7 +48,10 @@ var concJobIDs []string // identities of the jobs of the last round (for the cov
 func concRound(seed uint64, round int, workers int) (njobs int, diffs []string) {
 	r := NewRng(seed).Fork(round)
 	parsers := []url.Parser{url.NewParser(), url.NewParser(url.WithReportValidationErrors()), url.NewParser(url.WithLaxHostParsing(), url.WithCollapseConsecutiveSlashes()),
-		canonicalizer.WhatWg, canonicalizer.WhatWgSortQuery, canonicalizer.GoogleSafeBrowsing, canonicalizer.Semantic}
+		canonicalizer.WhatWg, canonicalizer.WhatWgSortQuery, canonicalizer.GoogleSafeBrowsing, canonicalizer.Semantic,
+		// diagnostics options: a call that a validation error stops must be stopped whatever other goroutines do with the same parser
+		url.NewParser(url.WithFailOnValidationError()), url.NewParser(url.WithFailOnValidationError(), url.WithReportValidationErrors()),
+		canonicalizer.New(url.WithFailOnValidationError(), canonicalizer.WithRepeatedPercentDecoding(), canonicalizer.WithRemovePort())}
 	// the concurrent phase runs first, on base values nothing has touched yet (a lazily created
 	// field would otherwise already exist); the sequential reference uses a second, equal set
 	mkBases := func() []*url.Url {
@@ -83,6 +86,12 @@ func concRound(seed uint64, round int, workers int) (njobs int, diffs []string) 
 	for _, in := range inputs {
 		for p := range parsers {
 			jobs = append(jobs, concJob{kind: 2, parser: p, input: in})
+		}
+		// a goroutine's own result keeps a reference to the shared parser: its setters run that parser again
+		for p := range parsers {
+			if (len(jobs)+p)%3 == 0 {
+				jobs = append(jobs, concJob{kind: 10, parser: p, input: in})
+			}
 		}
 		jobs = append(jobs, concJob{kind: 7, parser: len(jobs)}) // building a parser / profile with options while others parse
 		jobs = append(jobs, concJob{kind: 0, input: in}, concJob{kind: 1, base: r.Intn(len(bases)), input: in},
@@ -127,13 +136,22 @@ func concRound(seed uint64, round int, workers int) (njobs int, diffs []string) 
 			res.u, res.err = parsers[3+j.parser%4].Parse(j.input)
 		case 5:
 			res.u, res.err = parsers[3+j.parser%4].ParseRef(b.Href(false), j.input)
-		case 8, 9:
+		case 8, 9, 10:
 			var v *url.Url
 			if j.kind == 8 {
 				v, res.err = b.Parse(j.input)
 				if res.err != nil {
 					return res
 				}
+			} else if j.kind == 10 {
+				v, res.err = parsers[j.parser].Parse(j.input)
+				if res.err != nil || v == nil {
+					return res
+				}
+				// values a validation error would stop, and values it would not
+				v.SetPathname("/a b/c\\d")
+				v.SetHostname("own.example")
+				v.SetSearch("q=a b'")
 			} else {
 				v = b.Clone()
 			}
